@@ -103,4 +103,179 @@ example : Done (run {} [.intake, .intake, .intake, .intake, .exit 3, .watcher, .
   refine ⟨by decide, by decide, by decide, ?_⟩
   intro c hc; simp [run, step] at hc
 
+/-! ### bulks -/
+
+theorem count_map_ctor {β : Type} [DecidableEq β] (g : Nat → β) (hg : ∀ a b, g a = g b → a = b) (l : List Nat) (a : Nat) :
+    (l.map g).count (g a) = l.count a := by
+  induction l with
+  | nil => rfl
+  | cons x xs ih =>
+    simp only [map_cons, count_cons, ih]
+    by_cases h : x = a
+    · subst h; simp
+    · have : ¬ g x = g a := fun e => h (hg _ _ e)
+      simp [h, this]
+
+theorem count_map_zero {α β : Type} [DecidableEq β] (g : α → β) (l : List α) (e : β) (h : ∀ x, g x ≠ e) :
+    (l.map g).count e = 0 :=
+  count_eq_zero.mpr (fun hm => by obtain ⟨x, _, hx⟩ := mem_map.mp hm; exact h x hx)
+
+abbrev failing (ts : List (Nat × Bool × Nat)) := ts.filter (fun t => t.2.1)
+abbrev launched (ts : List (Nat × Bool × Nat)) := ts.filter (fun t => !t.2.1)
+
+theorem cnt_pairs_unsched (l : List (Nat × Bool × Nat)) (u : Nat) :
+    (l.flatMap (fun t => [BEv.unsched t.1, BEv.failed t.1])).count (.unsched u) = (l.map (·.1)).count u := by
+  induction l with
+  | nil => rfl
+  | cons x xs ih =>
+    simp only [flatMap_cons, count_append, ih, map_cons, count_cons, count_nil]
+    by_cases h : x.1 = u <;> simp [h] <;> omega
+
+theorem cnt_pairs_failed (l : List (Nat × Bool × Nat)) (u : Nat) :
+    (l.flatMap (fun t => [BEv.unsched t.1, BEv.failed t.1])).count (.failed u) = (l.map (·.1)).count u := by
+  induction l with
+  | nil => rfl
+  | cons x xs ih =>
+    simp only [flatMap_cons, count_append, ih, map_cons, count_cons, count_nil]
+    by_cases h : x.1 = u <;> simp [h] <;> omega
+
+theorem cnt_pairs_other (l : List (Nat × Bool × Nat)) (e : BEv) (h1 : ∀ u, e ≠ .unsched u) (h2 : ∀ u, e ≠ .failed u) :
+    (l.flatMap (fun t => [BEv.unsched t.1, BEv.failed t.1])).count e = 0 := by
+  apply count_eq_zero.mpr
+  intro hm
+  obtain ⟨t, _, ht⟩ := mem_flatMap.mp hm
+  simp only [mem_cons, mem_singleton] at ht
+  rcases ht with ht | ht | ht
+  · exact h1 _ ht
+  · exact h2 _ ht
+  · cases ht
+
+theorem cnt_start (ts : List (Nat × Bool × Nat)) (u : Nat) : (bulkEvents ts).count (.start u) = (ts.map (·.1)).count u := by
+  simp only [bulkEvents, count_append]
+  have h1 := cnt_pairs_other (failing ts) (.start u) (fun _ h => by cases h) (fun _ h => by cases h)
+  have h2 := count_map_zero (fun t : Nat × Bool × Nat => BEv.unsched t.1) (launched ts) (.start u) (fun _ h => by cases h)
+  have h3 := count_map_zero (fun t : Nat × Bool × Nat => BEv.handed t.1 (t.2.2 == 0)) (launched ts) (.start u) (fun _ h => by cases h)
+  have h0 : ts.map (fun t => BEv.start t.1) = (ts.map (·.1)).map BEv.start := by rw [map_map]; rfl
+  rw [h0, count_map_ctor BEv.start (fun a b h => by injection h)]
+  simp only [failing, launched] at h1 h2 h3
+  omega
+
+theorem cnt_unsched (ts : List (Nat × Bool × Nat)) (u : Nat) :
+    (bulkEvents ts).count (.unsched u) = ((failing ts).map (·.1)).count u + ((launched ts).map (·.1)).count u := by
+  simp only [bulkEvents, count_append]
+  have h1 := cnt_pairs_unsched (failing ts) u
+  have h2 := count_map_zero (fun t : Nat × Bool × Nat => BEv.start t.1) ts (.unsched u) (fun _ h => by cases h)
+  have h3 := count_map_zero (fun t : Nat × Bool × Nat => BEv.handed t.1 (t.2.2 == 0)) (launched ts) (.unsched u) (fun _ h => by cases h)
+  have h0 : (launched ts).map (fun t => BEv.unsched t.1) = ((launched ts).map (·.1)).map BEv.unsched := by rw [map_map]; rfl
+  have h4 := count_map_ctor BEv.unsched (fun a b h => by injection h) ((launched ts).map (·.1)) u
+  rw [← h0] at h4
+  simp only [failing, launched] at h1 h2 h3 h4 ⊢
+  omega
+
+theorem cnt_failed (ts : List (Nat × Bool × Nat)) (u : Nat) :
+    (bulkEvents ts).count (.failed u) = ((failing ts).map (·.1)).count u := by
+  simp only [bulkEvents, count_append]
+  have h1 := cnt_pairs_failed (failing ts) u
+  have h2 := count_map_zero (fun t : Nat × Bool × Nat => BEv.start t.1) ts (.failed u) (fun _ h => by cases h)
+  have h3 := count_map_zero (fun t : Nat × Bool × Nat => BEv.handed t.1 (t.2.2 == 0)) (launched ts) (.failed u) (fun _ h => by cases h)
+  have h4 := count_map_zero (fun t : Nat × Bool × Nat => BEv.unsched t.1) (launched ts) (.failed u) (fun _ h => by cases h)
+  simp only [failing, launched] at h1 h2 h3 h4 ⊢
+  omega
+
+theorem cnt_handed_map (l : List (Nat × Bool × Nat)) (u : Nat) (b : Bool) :
+    (l.map (fun t => BEv.handed t.1 (t.2.2 == 0))).count (.handed u b) = (l.map (fun t => (t.1, t.2.2 == 0))).count (u, b) := by
+  induction l with
+  | nil => rfl
+  | cons x xs ih =>
+    simp only [map_cons, count_cons, ih]
+    by_cases h : x.1 = u ∧ (x.2.2 == 0) = b
+    · obtain ⟨h1, h2⟩ := h; subst h1; subst h2; simp
+    · have h1 : ¬ (BEv.handed x.1 (x.2.2 == 0) = BEv.handed u b) := by
+        intro e; injection e with e1 e2; exact h ⟨e1, e2⟩
+      have h2 : ¬ ((x.1, x.2.2 == 0) = (u, b)) := by
+        intro e; injection e with e1 e2; exact h ⟨e1, e2⟩
+      simp [h1, h2]
+
+theorem cnt_handed (ts : List (Nat × Bool × Nat)) (u : Nat) (b : Bool) :
+    (bulkEvents ts).count (.handed u b) = ((launched ts).map (fun t => (t.1, t.2.2 == 0))).count (u, b) := by
+  simp only [bulkEvents, count_append]
+  have h1 := cnt_pairs_other (failing ts) (.handed u b) (fun _ h => by cases h) (fun _ h => by cases h)
+  have h2 := count_map_zero (fun t : Nat × Bool × Nat => BEv.start t.1) ts (.handed u b) (fun _ h => by cases h)
+  have h3 := count_map_zero (fun t : Nat × Bool × Nat => BEv.unsched t.1) (launched ts) (.handed u b) (fun _ h => by cases h)
+  have h4 := cnt_handed_map (launched ts) u b
+  simp only [failing, launched] at h1 h2 h3 h4 ⊢
+  omega
+
+/-- **every task of a bulk gets its own outcome**: with distinct uids, whatever subset of the bulk
+    cannot be launched, every task's start is announced once, its resources are released once, and
+    it is handed on exactly once - as FAILED if its own launch failed, to output staging (with its
+    own exit code) otherwise; a launch error never touches another task of the bulk -/
+theorem C07_bulk (ts : List (Nat × Bool × Nat)) (hn : (ts.map (·.1)).Nodup) (t : Nat × Bool × Nat) (ht : t ∈ ts) :
+    (bulkEvents ts).count (.start t.1) = 1
+    ∧ (bulkEvents ts).count (.unsched t.1) = 1
+    ∧ (bulkEvents ts).count (.failed t.1) = (if t.2.1 then 1 else 0)
+    ∧ (bulkEvents ts).count (.handed t.1 (t.2.2 == 0)) = (if t.2.1 then 0 else 1)
+    ∧ (∀ b, (bulkEvents ts).count (.handed t.1 b) ≤ (if t.2.1 then 0 else 1)) := by
+  have hmem : t.1 ∈ ts.map (·.1) := mem_map.mpr ⟨t, ht, rfl⟩
+  -- the uid lists of the failing and the launched tasks are sublists of the bulk's
+  have hfn : ((failing ts).map (·.1)).Nodup := hn.sublist (filter_sublist.map _)
+  have hln : ((launched ts).map (·.1)).Nodup := hn.sublist (filter_sublist.map _)
+  -- a uid occurs once in the bulk, so `t` is the only task with it
+  have huniq : ∀ y ∈ ts, y.1 = t.1 → y = t := by
+    intro y hy e
+    obtain ⟨i, hi⟩ := getElem?_of_mem hy
+    obtain ⟨j, hj⟩ := getElem?_of_mem ht
+    have hil : i < (ts.map (·.1)).length := by rw [length_map]; exact (List.getElem?_eq_some_iff.mp hi).1
+    have : i = j := (getElem?_inj hil hn).mp (by rw [getElem?_map, getElem?_map, hi, hj]; simp [e])
+    subst this; rw [hi] at hj; exact Option.some.inj hj
+  have hf_mem : t.1 ∈ (failing ts).map (·.1) ↔ t.2.1 = true := by
+    constructor
+    · intro h; obtain ⟨y, hy, e⟩ := mem_map.mp h
+      have hy' := mem_filter.mp hy
+      rw [huniq y hy'.1 e] at hy'; simpa using hy'.2
+    · intro h; exact mem_map.mpr ⟨t, mem_filter.mpr ⟨ht, by simpa using h⟩, rfl⟩
+  have hl_mem : t.1 ∈ (launched ts).map (·.1) ↔ t.2.1 = false := by
+    constructor
+    · intro h; obtain ⟨y, hy, e⟩ := mem_map.mp h
+      have hy' := mem_filter.mp hy
+      rw [huniq y hy'.1 e] at hy'; simpa using hy'.2
+    · intro h; exact mem_map.mpr ⟨t, mem_filter.mpr ⟨ht, by simpa using h⟩, rfl⟩
+  have hpn : ((launched ts).map (fun t => (t.1, t.2.2 == 0))).Nodup := by
+    have : ((launched ts).map (fun t => (t.1, t.2.2 == 0))).map (·.1) = (launched ts).map (·.1) := by rw [map_map]; rfl
+    have hp : (((launched ts).map (fun t => (t.1, t.2.2 == 0))).map (·.1)).Pairwise (· ≠ ·) := this ▸ hln
+    exact Pairwise.of_map (fun p : Nat × Bool => p.1) (fun a b hab e => hab (by rw [e])) hp
+  refine ⟨by rw [cnt_start, hn.count, if_pos hmem], ?_, ?_, ?_, ?_⟩
+  · rw [cnt_unsched, hfn.count, hln.count]
+    cases hb : t.2.1
+    · rw [if_neg (by rw [hf_mem, hb]; simp), if_pos (hl_mem.mpr hb)]
+    · rw [if_pos (hf_mem.mpr hb), if_neg (by rw [hl_mem, hb]; simp)]
+  · rw [cnt_failed, hfn.count]
+    cases hb : t.2.1
+    · rw [if_neg (by rw [hf_mem, hb]; simp)]; rfl
+    · rw [if_pos (hf_mem.mpr hb)]; rfl
+  · rw [cnt_handed, hpn.count]
+    cases hb : t.2.1
+    · have : (t.1, t.2.2 == 0) ∈ (launched ts).map (fun t => (t.1, t.2.2 == 0)) :=
+        mem_map.mpr ⟨t, mem_filter.mpr ⟨ht, by simp [hb]⟩, rfl⟩
+      rw [if_pos this]; rfl
+    · have : (t.1, t.2.2 == 0) ∉ (launched ts).map (fun t => (t.1, t.2.2 == 0)) := by
+        intro h; obtain ⟨y, hy, e⟩ := mem_map.mp h
+        have e1 : y.1 = t.1 := (Prod.mk.inj e).1
+        have := hl_mem.mp (mem_map.mpr ⟨y, hy, e1⟩)
+        rw [hb] at this; cases this
+      rw [if_neg this]; rfl
+  · intro b
+    rw [cnt_handed, hpn.count]
+    cases hb : t.2.1
+    · split <;> simp
+    · have : (t.1, b) ∉ (launched ts).map (fun t => (t.1, t.2.2 == 0)) := by
+        intro h; obtain ⟨y, hy, e⟩ := mem_map.mp h
+        have e1 : y.1 = t.1 := (Prod.mk.inj e).1
+        have := hl_mem.mp (mem_map.mpr ⟨y, hy, e1⟩)
+        rw [hb] at this; cases this
+      rw [if_neg this]; simp
+
+example : bulkEvents [(0, false, 0), (1, true, 0), (2, false, 3)]
+    = [.start 0, .start 1, .start 2, .unsched 1, .failed 1, .unsched 0, .unsched 2, .handed 0 true, .handed 2 false] := by decide
+
 end RPVerif.C07
